@@ -19,7 +19,7 @@ LEVEL = 'exploration'
 SHARDS = {'quick': 4, 'thorough': 16}
 BUDGET_S = {'quick': 150, 'thorough': 420}
 RULE = ('seeded histories of appending writes, read(n), read(), readline, readlines, iteration steps, seek to '
-        'any position inside the data, tell, len, getvalue in every interleaving, applied to io.BytesIO/StringIO '
+        'any position inside the data (absolute; relative to the current position or the end where the io class allows it), tell, len, getvalue in every interleaving, applied to io.BytesIO/StringIO '
         'and to 7 spooled copies with max_size 1, 2, half, len-1, len, len+1 and 10**6 (so the same history runs '
         'unrolled, rolled from the start and rolling over mid-way); contents with 1-4-byte UTF-8 characters and '
         'every line-ending form; MultiFileReader over every partition of a content into 1-5 members (BytesIO, '
@@ -92,7 +92,14 @@ class SpoolCheck(object):
             elif k == 'read_n':
                 ops.append(['read', r.choice([0, 1, 1, 2, 3, 7, 50])])
             elif k == 'seek':
-                ops.append(['seek', r.choice([0.0, 1.0, r.random(), r.random()])])
+                how = r.choices(['set', 'cur', 'end'], [8, 2, 2])[0]
+                # the whence forms name the same positions inside the data; io.StringIO only takes a zero offset there
+                if how == 'set':
+                    ops.append(['seek', r.choice([0.0, 1.0, r.random(), r.random()])])
+                elif self.text:
+                    ops.append(['seek_' + how + '0'])
+                else:
+                    ops.append(['seek_' + how, r.choice([0.0, 1.0, r.random(), r.random()])])
             else:
                 ops.append([k])
         return {'kind': 'text' if self.text else 'bytes', 'exotic': bool(exotic), 'ops': ops}
@@ -140,6 +147,13 @@ class SpoolCheck(object):
                     p = int(op[1] * len(model.getvalue()))
                     want = outcome(model.seek, p)
                     do = lambda f: f.seek(p)
+                elif name in ('seek_cur', 'seek_end', 'seek_cur0', 'seek_end0'):
+                    size = len(model.getvalue())
+                    whence = 1 if 'cur' in name else 2
+                    p = int(op[1] * size) if len(op) > 1 else (model.tell() if whence == 1 else size)
+                    off = p - (model.tell() if whence == 1 else size)
+                    want = outcome(model.seek, off, whence)
+                    do = lambda f: f.seek(off, whence)
                 elif name == 'tell':
                     want = outcome(model.tell)
                     do = lambda f: f.tell()
@@ -157,7 +171,7 @@ class SpoolCheck(object):
                         stats.monitor_evals += 1
                     if name == 'write':
                         got = ('ok', None) if got[0] == 'ok' else got
-                    if name == 'seek' and got[0] == 'ok' and got[1] is None:
+                    if name.startswith('seek') and got[0] == 'ok' and got[1] is None:
                         got = want      # seek's return value is not part of the statement
                     if got != want:
                         fl = Failure(i, 'result[%s]' % name, 'max_size=%d%s: %r, io model %r'
